@@ -271,17 +271,17 @@ structure DState where
   m : Memo := []
   fm : List (Fr × Fr) := []
 
+def cloneOf (f : Fr) (g : Nat) : Fr :=
+  match f with
+  | .reg n _ => .reg n g
+  | .hill _ => .hill g
+  | x => x
+
 def cloneFr (st : DState) (f : Fr) : DState × Fr :=
   if f.isLocal then (st, f)     -- the strings "TNW" / "QSW"
   else match st.fm.lookup f with
     | some f' => (st, f')
-    | none =>
-      let (h, g) := alloc st.h .clone
-      let f' : Fr := match f with
-        | .reg n _ => .reg n g
-        | .hill _ => .hill g
-        | x => x
-      ({ st with h := h, fm := (f, f') :: st.fm }, f')
+    | none => ({ st with h := st.h ++ [.clone], fm := (f, cloneOf f st.h.length) :: st.fm }, cloneOf f st.h.length)
 
 /-- map a function with state over a list, stopping at the first failure -/
 def deepList (f : DState → Ref → DState × Option Ref) (st : DState) : List Ref → DState × Option (List Ref)
@@ -294,42 +294,53 @@ def deepList (f : DState → Ref → DState × Option Ref) (st : DState) : List 
       | (st, none) => (st, none)
       | (st, some rest') => (st, some (r' :: rest'))
 
+/-- the copy of the object at `a` is allocated first, at `st.h.length`, as a placeholder without references,
+and entered in the memo (as `copy.deepcopy` / pickle do) -/
+def placeholder (st : DState) (a : Nat) : DState := { st with h := st.h ++ [.arr 0], m := (a, st.h.length) :: st.m }
+
+def finish (st : DState) (n : Nat) (c : Cell) : DState := { st with h := write st.h n c }
+
 def deepRef : Nat → DState → Ref → DState × Option Ref
   | 0, st, _ => (st, none)
   | fuel + 1, st, r =>
     match r with
-    | .frame f => let (st, f') := cloneFr st f; (st, some (.frame f'))
+    | .frame f => ((cloneFr st f).1, some (.frame (cloneFr st f).2))
     | .addr a =>
       match st.m.lookup a with
       | some a' => (st, some (.addr a'))
       | none =>
-        -- the copy is allocated first (as a placeholder without references) and entered in the memo
-        let (h, n) := alloc st.h (.arr 0)
-        let st : DState := { st with h := h, m := (a, n) :: st.m }
+        let n := st.h.length
+        let st1 := placeholder st a
         match st.h[a]? with
-        | some (.buf v) => ({ st with h := write st.h n (.buf v) }, some (.addr n))
-        | some (.arr t) => ({ st with h := write st.h n (.arr t) }, some (.addr n))
-        | some (.man t) => ({ st with h := write st.h n (.man t) }, some (.addr n))
-        | some (.prop t) => ({ st with h := write st.h n (.prop t) }, some (.addr n))
+        | some (.buf v) => (finish st1 n (.buf v), some (.addr n))
+        | some (.arr t) => (finish st1 n (.arr t), some (.addr n))
+        | some (.man t) => (finish st1 n (.man t), some (.addr n))
+        | some (.prop t) => (finish st1 n (.prop t), some (.addr n))
         | some (.list items) =>
-          match deepList (deepRef fuel) st items with
-          | (st, some items') => ({ st with h := write st.h n (.list items') }, some (.addr n))
-          | (st, none) => (st, none)
+          match deepList (deepRef fuel) st1 items with
+          | (st2, some items') => (finish st2 n (.list items'), some (.addr n))
+          | (st2, none) => (st2, none)
         | some (.dict items) =>
-          match deepList (deepRef fuel) st (items.map (·.2)) with
-          | (st, some vs) => ({ st with h := write st.h n (.dict ((items.map (·.1)).zip vs)) }, some (.addr n))
-          | (st, none) => (st, none)
+          match deepList (deepRef fuel) st1 (items.map (·.2)) with
+          | (st2, some vs) => (finish st2 n (.dict ((items.map (·.1)).zip vs)), some (.addr n))
+          | (st2, none) => (st2, none)
         | some (.sv o b d) =>
-          match deepList (deepRef fuel) st [.addr b, .addr d] with
-          | (st, some [.addr b', .addr d']) => ({ st with h := write st.h n (.sv o b' d') }, some (.addr n))
-          | (st, _) => (st, none)
+          match deepList (deepRef fuel) st1 [.addr b, .addr d] with
+          | (st2, some rs) =>
+            match rs with
+            | [.addr b', .addr d'] => (finish st2 n (.sv o b' d'), some (.addr n))
+            | _ => (st2, none)
+          | (st2, none) => (st2, none)
         | some (.cov v fr orb ofr) =>
-          let (st, fr') := cloneFr st fr
-          let (st, ofr') := cloneFr st ofr
-          match deepRef fuel st (.addr orb) with
-          | (st, some (.addr orb')) => ({ st with h := write st.h n (.cov v fr' orb' ofr') }, some (.addr n))
-          | (st, _) => (st, none)
-        | _ => (st, none)
+          let c1 := cloneFr st1 fr
+          let c2 := cloneFr c1.1 ofr
+          match deepRef fuel c2.1 (.addr orb) with
+          | (st2, some r') =>
+            match r' with
+            | .addr orb' => (finish st2 n (.cov v c1.2 orb' c2.2), some (.addr n))
+            | _ => (st2, none)
+          | (st2, none) => (st2, none)
+        | _ => (st1, none)
     | _ => (st, some r)
 
 def deepFuel : Nat := 12
@@ -337,8 +348,11 @@ def deepFuel : Nat := 12
 /-- `pickle.loads(pickle.dumps(sv))` -/
 def pickle (h : Heap) (a : Nat) : Res Nat :=
   match deepRef deepFuel { h := h } (.addr a) with
-  | (st, some (.addr n)) => (st.h, .ok n)
-  | (st, _) => (st.h, .error .bad)
+  | (st, some r) =>
+    match r with
+    | .addr n => (st.h, .ok n)
+    | _ => (st.h, .error .bad)
+  | (st, none) => (st.h, .error .bad)
 
 /-- `copy.deepcopy(v)` of one metadata value -/
 def deepVal (h : Heap) (r : Ref) : Res Ref :=
